@@ -201,8 +201,9 @@ def run_chain(chain):
     """first: a case (may carry claims); steps: later rounds {ppt, members}; every later round
     claims what the previous real round returned, with generation = round number."""
     rounds = []
+    wl = bool(chain.get("log", 1))
     case = dict(chain["first"])
-    res = run_sticky(case)
+    res = run_sticky(case, with_log=wl)
     rounds.append({"case": case, "sticky": res})
     gen = chain.get("gen0", 1)
     for st in chain["steps"]:
@@ -214,7 +215,7 @@ def run_chain(chain):
             # members listed here keep shipping an older claim (they missed a generation)
             for idx, cl in st["stale"]:
                 nxt["claims"][idx] = cl
-        res = run_sticky(nxt)
+        res = run_sticky(nxt, with_log=wl)
         rounds.append({"case": nxt, "sticky": res})
         gen += 1
     return rounds
